@@ -1,7 +1,8 @@
 #!/usr/bin/env python3
 """Applies every confirmed seeded change to /repo (one at a time), runs all checks on it (zcheck -all), undoes it,
-and records which checks report a violation. Writes seeded/MATRIX.json and seeded/MATRIX.md."""
-import json,os,subprocess,glob,re,shutil
+and records which checks report a violation. Writes seeded/MATRIX.json and seeded/MATRIX.md.
+With arguments (seed names, e.g. C33-e C34-c) only those seeds are re-run; the rows of the others are kept from MATRIX.json."""
+import json,os,subprocess,glob,re,shutil,sys
 V='/verif'; R='/repo'
 tmpv='/tmp/seedmatrix-verif'
 os.makedirs(tmpv+'/evidence',exist_ok=True)
@@ -9,8 +10,13 @@ shutil.copy(V+'/known_findings.json',tmpv)
 shutil.copy(V+'/bin/zcheck',tmpv+'/zcheck')  # a private copy: rebuilding the checker while the matrix runs must not change it
 assert subprocess.run(['git','-C',R,'diff','--quiet']).returncode==0, "/repo dirty"
 rows=[]
+only=set(sys.argv[1:])
+kept={r['seed']:r for r in json.load(open(V+'/seeded/MATRIX.json'))} if only else {}
 for d in sorted(glob.glob(V+'/seeded/C*')):
     name=os.path.basename(d)
+    if only and name not in only:
+        if name in kept: rows.append(kept[name])
+        continue
     prop=name.split('-')[0]
     patch=d+'/patch.diff'
     used='patch.diff'
